@@ -8,6 +8,7 @@ import (
 	"verif/harness/c09"
 	"verif/harness/c10"
 	"verif/harness/core"
+	"verif/harness/gap"
 	"verif/harness/tla"
 )
 
@@ -62,6 +63,7 @@ func runFmtLike(c *core.Check, chk func(*core.Check, string, map[string]any) boo
 			c.Nontrivial(src)
 		}
 	}
+	gapStage(c, func(src string, vec map[string]any) bool { return chk(c, src, vec) })
 	consts := map[string]string{"MaxItems": "2", "MaxL": "1", "LabelMode": "\"full\""}
 	if c.Tier == "thorough" {
 		consts = map[string]string{"MaxItems": "2", "MaxL": "2", "LabelMode": "\"full\""}
@@ -83,9 +85,37 @@ func runFmtLike(c *core.Check, chk func(*core.Check, string, map[string]any) boo
 	})
 }
 
+// gapStage streams MC_Gap: one or two non-canonical gaps (nothing, blanks, tabs, inline and line
+// comments, newlines) at every token boundary of every base expression. Edited texts that do not
+// parse without errors are outside the statements and are only counted.
+func gapStage(c *core.Check, chk func(string, map[string]any) bool) {
+	cfgs := []map[string]string{{"MaxK": "1", "BaseMode": "\"few\"", "MaxPos": "13"}}
+	if c.Tier == "thorough" {
+		cfgs = []map[string]string{{"MaxK": "1", "BaseMode": "\"mid\"", "MaxPos": "15"}, {"MaxK": "2", "BaseMode": "\"few\"", "MaxPos": "9"}}
+	}
+	c.Extra["gap_constants"] = cfgs
+	for _, consts := range cfgs {
+		streamTLC(c, core.TLCRun{Module: "MC_Gap", Parts: 4, Consts: consts, Timeout: minutes(30), KeepVars: []string{"e", "gaps"}}, func(st core.State) {
+			v := gap.Decode(st)
+			if len(v.Edits) == 0 {
+				return
+			}
+			c.Count("vectors_replayed", 1)
+			for _, src := range v.Sources() {
+				if chk(src, map[string]any{"state": st.Raw, "source": src, "kind": "gap"}) {
+					c.Count("gap_sources_in_domain", 1)
+					c.Nontrivial(src)
+				} else {
+					c.Count("gap_sources_outside_domain", 1)
+				}
+			}
+		})
+	}
+}
+
 func runC09(c *core.Check) {
-	c.Rule = "(1) every MC_E1 expression as an attribute value in 4-5 layouts (canonical, wide, inline comments, a space between EVERY pair of tokens incl. traversal steps, newlines inside parentheses), alone and inside a block with lead/trailing comments and a multi-line tuple; (2) every file of the MC_C02 layout machine (comments in every position, CRLF, tabs, BOM, one-line blocks, missing final newline). Each error-free source: Format keeps the token sequence (types and bytes), still parses, keeps every attribute value, and is idempotent. Non-trivial = distinct source text"
-	c.Assumes = []string{"token sequences are compared with hclsyntax.LexConfig on both sides", "heredoc templates are not generated yet"}
+	c.Rule = "(1) every MC_E1 expression as an attribute value in 4-5 layouts (canonical, wide, inline comments, a space between EVERY pair of tokens incl. traversal steps, newlines inside parentheses), alone and inside a block with lead/trailing comments and a multi-line tuple; (2) every file of the MC_C02 layout machine (comments in every position, CRLF, tabs, BOM, one-line blocks, missing final newline). (3) MC_Gap: every base expression with one (thorough: two) non-canonical gaps (none, blanks, tab, inline / line comments, newlines, CRLF) at every token boundary. Each error-free source: Format keeps the token sequence (types and bytes), still parses, keeps every attribute value, and is idempotent. Non-trivial = distinct source text"
+	c.Assumes = []string{"token sequences are compared with hclsyntax.LexConfig on both sides", "gap edits whose result does not parse are outside the statement (counted as gap_sources_outside_domain)"}
 	runFmtLike(c, c09.CheckSource, c09.HandleE1)
 }
 
